@@ -141,6 +141,7 @@ structure Code where
   resetClearsErrOut : Bool := true     -- CheckedEntry.reset: ce.ErrorOutput = nil
   elemClearedOnPut : Bool := true      -- errArrayElem.Free: e.err = nil (a reference only: never read before the next set)
   freeAfterSink : Bool := true         -- ioCore.Write: buf.Free() after c.out.Write returned
+  contextOnClone : Bool := true        -- consoleEncoder.writeContext: closeOpenNamespaces on a clone (`context`), never on the receiver
   putAfterHook : Bool := true          -- CheckedEntry.Write: putCheckedEntry(ce) after hook.OnWrite(ce, fields) returned
 deriving DecidableEq, Repr
 
@@ -160,6 +161,13 @@ structure CEHeap where
 
 def updCE (m : Nat → CEObj) (i : Nat) (v : CEObj) : Nat → CEObj := fun j => if j = i then v else m j
 
+/-- the fields of a core's long-lived encoder other than its buffer -/
+structure LiveMeta where
+  cfg : Nat
+  spaced : Bool
+  openNs : Nat
+deriving DecidableEq, Repr
+
 structure H where
   mem : Nat → Bytes          -- contents of every buffer ever allocated
   next : Nat                 -- ids ≥ next are unallocated
@@ -171,12 +179,13 @@ structure H where
   errPoolZap : List ErrObj
   stackPool : List StackObj
   inflight : List Nat        -- buffers returned by EncodeEntry whose ioCore.Write frame has not freed them yet
-  live : List Nat            -- buffers owned by With-clones (never freed)
+  live : List Nat            -- buffers owned by With-clones, i.e. by the encoders that cores hold (never freed)
   tick : Nat                 -- Gets so far: index into the oracle
   fault : Bool               -- a nil dereference / slice out of range / runaway loop would have happened
   out : List Out             -- observable results, newest first
+  liveMeta : List LiveMeta   -- the other fields of those encoders (same order as `live`)
 
-def H.empty : H := ⟨fun _ => [], 0, [], [], [], ⟨fun _ => CEObj.fresh, 0, [], []⟩, [], [], [], [], [], 0, false, []⟩
+def H.empty : H := ⟨fun _ => [], 0, [], [], [], ⟨fun _ => CEObj.fresh, 0, [], []⟩, [], [], [], [], [], 0, false, [], []⟩
 
 abbrev Orc := Nat → Option Nat
 
@@ -565,6 +574,9 @@ inductive Op where
   | deliver (i : Nat)                       -- the sink of the i-th in-flight Write returns: the bytes are what it saw; Free
   | withClone (p : Parent) (fields : List RO) -- ioCore.With: Clone + addFields; the clone lives on
   | peek (i : Nat)                          -- somebody reads the buffer of the i-th live With-clone
+  | encJsonAt (k : Nat) (j : Job)           -- ioCore.Write on the core whose encoder is the k-th created clone (JSON)
+  | encConsoleAt (k : Nat) (j : CJob)       -- the same, console encoder
+  | withAt (k : Nat) (fields : List RO)     -- ioCore.With on that core: a child core with its own clone
   | check (ent : Nat) (cores : List Nat) (after errOut : Option Nat) (write : Bool)
   | hookReturn (i : Nat)                    -- the hook of the i-th entry that is inside `hook.OnWrite` reads it and returns
   | errElem (zapPkg : Bool) (e : Nat)
@@ -578,25 +590,57 @@ def keepIdx {α} (k : Nat → Bool) : Nat → List α → List α
   | _, [] => []
   | i, x :: r => if k i then x :: keepIdx k (i + 1) r else keepIdx k (i + 1) r
 
+/-- the k-th encoder ever cloned for a core (creation order; `live` is newest first) -/
+def liveAt {α} (l : List α) (k : Nat) : Option α := l.reverse[k]?
+
+/-- the encoder the k-th core holds, as `EncodeEntry`/`Clone` read it: configuration, spacing, the bytes of its
+    buffer, its namespace counter -/
+def parentAt (h : H) (k : Nat) : Parent :=
+  match liveAt h.live k, liveAt h.liveMeta k with
+  | some b, some m => ⟨m.cfg, m.spaced, h.mem b, m.openNs⟩
+  | _, _ => ⟨0, false, [], 0⟩       -- no such clone: a core made by NewCore over a brand-new encoder
+
+def stepEncJson (c : Code) (orc : Orc) (h : H) (p : Parent) (j : Job) : H :=
+  let r := encodeJson c orc h p j
+  let h1 : H := { r.2 with inflight := r.1 :: r.2.inflight }
+  if c.freeAfterSink then h1 else bufFree h1 r.1
+
+def stepEncConsole (c : Code) (orc : Orc) (h : H) (p : Parent) (j : CJob) : H :=
+  let r := encodeConsole c orc h p j
+  let h1 : H := { r.2 with inflight := r.1 :: r.2.inflight }
+  if c.freeAfterSink then h1 else bufFree h1 r.1
+
+def stepWith (c : Code) (orc : Orc) (h : H) (p : Parent) (fields : List RO) : H :=
+  let s2 := cloneBody orc (cfgCheck (clone c orc h p) p) p fields
+  let b := s2.o.buf.getD 0
+  { s2.h with live := b :: s2.h.live, liveMeta := ⟨p.cfg, p.spaced, s2.o.openNs⟩ :: s2.h.liveMeta,
+              out := Out.ctx (s2.h.mem b) s2.o.openNs :: s2.h.out }
+
+def setAt {α} (l : List α) (k : Nat) (v : α) : List α := (l.reverse.set k v).reverse
+
+/-- the variant of `writeContext` with a "no fields" fast path that closes the namespaces of the RECEIVER: the core's
+    own encoder gets the closing braces and a zero counter, for good -/
+def closeOnReceiver (h : H) (k : Nat) : H :=
+  match liveAt h.live k, liveAt h.liveMeta k with
+  | some b, some m =>
+    { h with mem := upd h.mem b (h.mem b ++ List.replicate m.openNs 125), liveMeta := setAt h.liveMeta k { m with openNs := 0 } }
+  | _, _ => h
+
 def step (c : Code) (orc : Orc) (h : H) : Op → H
-  | .encJson p j =>
-    let r := encodeJson c orc h p j
-    let h1 : H := { r.2 with inflight := r.1 :: r.2.inflight }
-    if c.freeAfterSink then h1 else bufFree h1 r.1
-  | .encConsole p j =>
-    let r := encodeConsole c orc h p j
-    let h1 : H := { r.2 with inflight := r.1 :: r.2.inflight }
-    if c.freeAfterSink then h1 else bufFree h1 r.1
+  | .encJson p j => stepEncJson c orc h p j
+  | .encConsole p j => stepEncConsole c orc h p j
+  | .encJsonAt k j => stepEncJson c orc h (parentAt h k) j
+  | .encConsoleAt k j =>
+    let h0 := if !c.contextOnClone && j.fields.isEmpty then closeOnReceiver h k else h
+    stepEncConsole c orc h0 (parentAt h0 k) j
+  | .withAt k fields => stepWith c orc h (parentAt h k) fields
   | .deliver i =>
     match h.inflight[i]? with
     | some b =>
       let h1 : H := { h with inflight := h.inflight.eraseIdx i, out := Out.line (h.mem b) :: h.out }
       if c.freeAfterSink then bufFree h1 b else h1
     | none => h
-  | .withClone p fields =>
-    let s2 := cloneBody orc (cfgCheck (clone c orc h p) p) p fields
-    let b := s2.o.buf.getD 0
-    { s2.h with live := b :: s2.h.live, out := Out.ctx (s2.h.mem b) s2.o.openNs :: s2.h.out }
+  | .withClone p fields => stepWith c orc h p fields
   | .peek i =>
     match h.live[i]? with
     | some b => { h with out := Out.line (h.mem b) :: h.out }
@@ -626,21 +670,32 @@ structure PS where
   live : List Bytes
   inHook : List (Nat × Option Nat)
   out : List Out
+  liveMeta : List LiveMeta
 
-def PS.empty : PS := ⟨[], [], [], []⟩
+def PS.empty : PS := ⟨[], [], [], [], []⟩
 
 def pureCtx (p : Parent) (fields : List RO) : Enc.Enc := runO p.spaced ⟨p.ctx, p.openNs⟩ (eraseO fields)
+
+def pparentAt (s : PS) (k : Nat) : Parent :=
+  match liveAt s.live k, liveAt s.liveMeta k with
+  | some b, some m => ⟨m.cfg, m.spaced, b, m.openNs⟩
+  | _, _ => ⟨0, false, [], 0⟩
+
+def pstepWith (s : PS) (p : Parent) (fields : List RO) : PS :=
+  let e := pureCtx p fields
+  { s with live := e.buf :: s.live, liveMeta := ⟨p.cfg, p.spaced, e.openNs⟩ :: s.liveMeta, out := Out.ctx e.buf e.openNs :: s.out }
 
 def pstep (s : PS) : Op → PS
   | .encJson p j => { s with inflight := pureJson p j :: s.inflight }
   | .encConsole p j => { s with inflight := pureConsole p j :: s.inflight }
+  | .encJsonAt k j => { s with inflight := pureJson (pparentAt s k) j :: s.inflight }
+  | .encConsoleAt k j => { s with inflight := pureConsole (pparentAt s k) j :: s.inflight }
+  | .withAt k fields => pstepWith s (pparentAt s k) fields
   | .deliver i =>
     match s.inflight[i]? with
     | some l => { s with inflight := s.inflight.eraseIdx i, out := Out.line l :: s.out }
     | none => s
-  | .withClone p fields =>
-    let e := pureCtx p fields
-    { s with live := e.buf :: s.live, out := Out.ctx e.buf e.openNs :: s.out }
+  | .withClone p fields => pstepWith s p fields
   | .peek i =>
     match s.live[i]? with
     | some l => { s with out := Out.line l :: s.out }
@@ -670,6 +725,9 @@ def nested : Nat → List Op → Bool
   | d, [] => d == 0
   | d, .encJson _ _ :: r => nested (d + 1) r
   | d, .encConsole _ _ :: r => nested (d + 1) r
+  | d, .encJsonAt _ _ :: r => nested (d + 1) r
+  | d, .encConsoleAt _ _ :: r => nested (d + 1) r
+  | d, .withAt _ _ :: r => nested d r
   | d, .deliver i :: r => decide (i < d) && nested (d - 1) r
   | d, .withClone _ _ :: r => nested d r
   | d, .peek _ :: r => nested d r
@@ -692,6 +750,9 @@ def hnested : Nat → List Op → Bool
   | d, .hookReturn i :: r => decide (i < d) && hnested (d - 1) r
   | d, .encJson _ _ :: r => hnested d r
   | d, .encConsole _ _ :: r => hnested d r
+  | d, .encJsonAt _ _ :: r => hnested d r
+  | d, .encConsoleAt _ _ :: r => hnested d r
+  | d, .withAt _ _ :: r => hnested d r
   | d, .deliver _ :: r => hnested d r
   | d, .withClone _ _ :: r => hnested d r
   | d, .peek _ :: r => hnested d r
@@ -722,6 +783,6 @@ structure Inv (h : H) : Prop where
 /-- the heap machine and the pool-free run agree on everything observable, now and later -/
 def Rel (h : H) (ps : PS) : Prop :=
   h.inflight.map h.mem = ps.inflight ∧ h.live.map h.mem = ps.live ∧ h.out = ps.out ∧
-  h.ceh.inHook.map (fun id => ((h.ceh.mem id).ent, (h.ceh.mem id).after)) = ps.inHook
+  h.ceh.inHook.map (fun id => ((h.ceh.mem id).ent, (h.ceh.mem id).after)) = ps.inHook ∧ h.liveMeta = ps.liveMeta
 
 end ZapVerif.Pools
